@@ -357,6 +357,9 @@ func (v *visitor) FunctionNode(node *ast.FunctionNode) reflect.Type {
 		}
 	}
 	if !v.strict {
+		for _, arg := range node.Arguments {
+			v.visit(arg)
+		}
 		if v.defaultType != nil {
 			return v.defaultType
 		}
@@ -375,12 +378,18 @@ func (v *visitor) MethodNode(node *ast.MethodNode) reflect.Type {
 	if !node.NilSafe {
 		return v.error(node, "type %v has no method %v", t, node.Method)
 	}
+	for _, arg := range node.Arguments {
+		v.visit(arg)
+	}
 	return nil
 }
 
 // checkFunc checks func arguments and returns "return type" of func or method.
 func (v *visitor) checkFunc(fn reflect.Type, method bool, node ast.Node, name string, arguments []ast.Node) reflect.Type {
 	if isInterface(fn) {
+		for _, arg := range arguments {
+			v.visit(arg)
+		}
 		return interfaceType
 	}
 
